@@ -77,7 +77,8 @@ def run_lines_e(exe, args, lines, **kw):
 
 def run(ctx):
     quick = ctx.quick()
-    st = family_setup(ctx, PROPS, n_random=5 if quick else 50, tl2_random=False, objx_random=2 if quick else 15)
+    corpus = [c for c in repo_corpus(quick) if not quick or c[0] != "cases_nosan"]    # same functions as `cases`; random units cover the no-sanity option
+    st = family_setup(ctx, PROPS, n_random=3 if quick else 50, tl2_random=False, objx_random=2 if quick else 15, corpus=corpus)
     nreq = 5 if quick else 30
     nres = 4 if quick else 12
     stats = {"schemas": 0, "functions": 0, "functions_result_shaped_by_request": 0, "functions_with_typed_path": 0, "requests": 0, "result_values": 0,
@@ -120,6 +121,9 @@ def run(ctx):
                 uskip.append({"unit": u.name, "function": name, "why": why})
                 continue
             rfields = sorted({a["value"] for a in r.get("natArgs") or [] if a["kind"] == "field"})
+            local = {f["mask"]["value"] for f in x["fields"] if f.get("mask") and f["mask"]["kind"] == "field"} | \
+                    {a["value"] for f in x["fields"] for a in (f.get("natArgs") or []) if a["kind"] == "field"}
+            free_fields = [i for i in rfields if i not in local]
             for _ in range(nreq):
                 try:
                     q = vg.top(ft)
@@ -129,6 +133,13 @@ def run(ctx):
                         if len(set(vals)) == len(vals):
                             break
                         q = vg.top(ft)
+                    # request fields used ONLY by the result may be masks of the result type: give them all bit patterns
+                    if free_fields and rng.random() < 0.6:
+                        fs = list(q[1])
+                        for i in free_fields:
+                            if fs[i] is not None:
+                                fs[i] = ("n", rng.randrange(0, 128) if rng.random() < 0.7 else rng.choice([0, 1, 2, 3]))
+                        q = ("S", fs)
                 except Budget:
                     s_["budget_skips"] += 1
                     break
